@@ -82,6 +82,15 @@ def run(tier, seed, replay=None):
             rep = vlib.run_harness(bin_, ["c07"] + common + ["-trace-out", prefix, "-every", str(every), "-procs", str(procs)], timeout=14000)
             if rep.get("extra", {}).get("read_error") or rep.get("extra", {}).get("shards_failed"):
                 raise vlib.Infra("c07 harness failed: %s" % rep.get("extra"))
+            if rep["evaluations"] and rep["inconclusive"] > 0.2 * rep["evaluations"] and not rep["divergences"]:
+                # the machine is busy: the real-time TTL steps were disturbed; repeat with a coarser clock and fewer processes
+                vlib.log("[readers] %s/%s: timing disturbed (%d of %d inconclusive), repeating with a 40 ms clock unit" % (name, label, rep["inconclusive"], rep["evaluations"]))
+                for old_trace in glob.glob(prefix + ".*"):
+                    os.remove(old_trace)
+                slow = [("40" if common[i - 1] == "-unit-ms" else a) for i, a in enumerate(common)]
+                rep = vlib.run_harness(bin_, ["c07"] + slow + ["-trace-out", prefix, "-every", str(every), "-procs", str(max(2, procs // 2))], timeout=14000)
+                if rep.get("extra", {}).get("read_error") or rep.get("extra", {}).get("shards_failed"):
+                    raise vlib.Infra("c07 harness failed: %s" % rep.get("extra"))
             vlib.log("[readers] %s/%s: %d behaviours, %d inconclusive, %d divergences, extra=%s" % (
                 name, label, rep["evaluations"], rep["inconclusive"], len(rep["divergences"]), rep.get("extra")))
             ck.add_report(rep)
